@@ -110,3 +110,18 @@ b("extract_visit_helper", [("src/fixtures/analyzer.rs",
   ("src/fixtures/analyzer.rs",
    "    /// Remove definitions that were in a specific file.\n    /// Uses the file_definitions reverse index",
    "    fn visit_module_body(&self, body: &[Stmt], file_path: &PathBuf, is_conftest: bool, content: &str, line_index: &[usize]) {\n        for stmt in body {\n            self.visit_stmt(stmt, file_path, is_conftest, content, line_index);\n        }\n    }\n\n    /// Remove definitions that were in a specific file.\n    /// Uses the file_definitions reverse index")])
+
+b("parent_step_as_let_else", [("src/fixtures/resolver.rs",
+   "                    return Some(def.clone());\n                }\n            }\n\n            match current_dir.parent() {\n                Some(parent) => current_dir = parent,\n                None => break,\n            }\n        }\n\n        // Priority 3: Plugin fixtures (discovered via pytest11 entry points)",
+   "                    return Some(def.clone());\n                }\n            }\n\n            let Some(parent) = current_dir.parent() else {\n                break;\n            };\n            current_dir = parent;\n        }\n\n        // Priority 3: Plugin fixtures (discovered via pytest11 entry points)")])
+
+b("cycle_dfs_visited_test_at_pop", [("src/fixtures/resolver.rs",
+   "                    } else if !visited.contains(dep) {\n                        // Explore this dependency\n                        stack.push((dep.clone(), 0, path.clone()));\n                    }",
+   "                    } else {\n                        // Explore this dependency (finished nodes are dropped when popped)\n                        stack.push((dep.clone(), 0, path.clone()));\n                    }"),
+  ("src/fixtures/resolver.rs",
+   "                if idx == 0 {\n                    // First time visiting this node\n                    if rec_stack.contains(&current) {",
+   "                if idx == 0 && visited.contains(&current) {\n                    continue;\n                }\n                if idx == 0 {\n                    // First time visiting this node\n                    if rec_stack.contains(&current) {")])
+
+b("decorator_scan_as_while", [("src/fixtures/resolver.rs",
+   "            if trimmed.is_empty() {\n                // Skip blank lines between decorators and def\n                if i == 0 {\n                    break;\n                }\n                i -= 1;\n                continue;\n            }",
+   "            if trimmed.is_empty() && i == 0 {\n                break;\n            }\n            if trimmed.is_empty() {\n                // Skip blank lines between decorators and def\n                i -= 1;\n                continue;\n            }")])
